@@ -4,8 +4,10 @@ package all
 import (
 	"verif/harness/core"
 	"verif/harness/props/c01"
+	"verif/harness/props/c02"
 	"verif/harness/props/c03"
 	"verif/harness/props/c05"
+	"verif/harness/props/c06"
 	"verif/harness/props/c17"
 )
 
@@ -13,8 +15,10 @@ func Specs() map[string]*core.Spec {
 	m := map[string]*core.Spec{}
 	for _, s := range []*core.Spec{
 		c01.Spec(),
+		c02.Spec(),
 		c03.Spec(),
 		c05.Spec(),
+		c06.Spec(),
 		c17.Spec(),
 	} {
 		m[s.ID] = s
